@@ -61,7 +61,7 @@ func (s *IndexStorage) SetIndex(idx *index.Index) (err error) {
 }
 
 func (s *IndexStorage) writeIndex(idx *index.Index) (err error) {
-	f, err := s.dir.IndexWriter()
+	f, err := s.dir.IndexReplacer()
 	if err != nil {
 		return err
 	}
@@ -69,7 +69,14 @@ func (s *IndexStorage) writeIndex(idx *index.Index) (err error) {
 	defer ioutil.CheckClose(f, &err)
 	bw := bufio.NewWriter(f)
 	defer func() {
-		if e := bw.Flush(); err == nil && e != nil {
+		if err != nil {
+			// an index that could not be encoded must not replace the one
+			// that is there
+			f.Discard()
+			return
+		}
+		if e := bw.Flush(); e != nil {
+			f.Discard()
 			err = e
 		}
 	}()
